@@ -1584,8 +1584,9 @@ Proof.
       + rewrite E. reflexivity.
       + apply set_path_none in Sp. congruence.
     - assert (Q : l_query L = "") by (unfold nonempty in Nq; apply negb_false_iff, String.eqb_eq in Nq; exact Nq).
-      rewrite Q. assert (A : l_rawpath L ++ "" = l_rawpath L) by (induction (l_rawpath L) as [|c r IH]; [reflexivity | cbn; rewrite IH; reflexivity]).
-      rewrite A, (valid_encoded_no_qmark _ Hv).
+      rewrite Q. assert (A : forall x : string, x ++ "" = x) by (intro x; induction x as [|c r IH]; [reflexivity | cbn; rewrite IH; reflexivity]).
+      rewrite (A (l_rawpath L)).
+      rewrite (valid_encoded_no_qmark _ Hv).
       pose proof (escpath_wire_wf _ _ Hs Hv Hu) as E. unfold escpath_of_wire in E.
       destruct (GoUrl.set_path (l_rawpath L)) as [[pa rp]|] eqn:Sp.
       + rewrite E. reflexivity.
